@@ -27,3 +27,4 @@ def run(ctx, R):
     aes.rule_fused(ctx, R, F)
     argon.rule_skeleton(ctx, R, F)
     jitcross.rule_v2sym_a64(ctx, R)
+    aes.rule_cover(ctx, R, F)
